@@ -503,7 +503,7 @@ def check_key_val(key: str, val: Any, deprecations: dict = deprecations) -> tupl
             new_val = val_aliases[val]
 
     if key == "device":
-        if "cpu" in str(new_val):
+        if isinstance(new_val, str) and new_val.lower() == "cpu":
             new_val = "cpu"
         else:
             new_val, gpu_id = validate_device(new_val)
@@ -532,7 +532,7 @@ def validate_device(dev: str | int | torch.device | None = None) -> tuple[str, i
     elif isinstance(dev, str):
         if "cuda" in dev.lower():
             dev = torch.device(dev)
-        elif "gpu" in dev.lower():
+        elif dev.lower() == "gpu":
             if torch.cuda.is_available():
                 dev = torch.device("cuda")
             elif torch.mps.is_available():
